@@ -126,6 +126,9 @@ func (m *Matcher) PreMatch(s []byte) bool {
 // The second return value indicates whether the regex matches the given key.
 func (m *Matcher) MatchRegexAndExpand(key, template []byte) (string, bool) {
 	var dst []byte
+	if m.notRegex != nil && m.notRegex.Match(key) {
+		return "", false
+	}
 	matches := m.regex.FindSubmatchIndex(key)
 	if matches == nil {
 		return "", false
